@@ -100,30 +100,49 @@ fn check_payloads(w: &mut World) {
         }
     }
     let mut seen: HashSet<(SocketAddr, u64)> = HashSet::new();
+    // zero-length packets all look alike: no more of them delivered than submitted
+    let mut empty_got: HashMap<SocketAddr, usize> = HashMap::new();
     let sev: Vec<(SocketAddr, EvRec)> = w.server.events.clone();
     for (a, e) in sev.iter() {
         if let Ev::Receive(h, l) = e.ev {
             w.c.inc("ep_receives_checked");
             if !by_client.get(a).map_or(false, |s| s.contains(&(h, l))) {
                 w.viol("C01", "ep-delivered-unknown", format!("server handed the application a {}-byte packet from {} at t={} ms that no client at that address submitted", l, a, e.t_ns / MS));
+            } else if l == 0 {
+                *empty_got.entry(*a).or_default() += 1;
             } else if !seen.insert((*a, h)) {
                 w.viol("C01", "ep-delivered-twice", format!("server handed the application the same {}-byte packet from {} a second time at t={} ms", l, a, e.t_ns / MS));
             }
+        }
+    }
+    let mut empties: Vec<(SocketAddr, usize)> = empty_got.into_iter().collect();
+    empties.sort();
+    for (a, n) in empties {
+        let sent: usize = w.clients.iter().filter(|c| c.addr == a).map(|c| c.events.iter().filter(|e| matches!(e.ev, Ev::AppSend(_, 0, _))).count()).sum();
+        if n > sent {
+            w.viol("C01", "ep-delivered-twice", format!("server handed the application {} zero-length packets from {} but only {} were submitted", n, a, sent));
         }
     }
     for i in 0..w.clients.len() {
         let addr = w.clients[i].addr;
         let evs = w.clients[i].events.clone();
         let mut mine: HashSet<u64> = HashSet::new();
+        let mut my_empties = 0usize;
         for e in evs.iter() {
             if let Ev::Receive(h, l) = e.ev {
                 w.c.inc("ep_receives_checked");
                 if !by_server.get(&addr).map_or(false, |s| s.contains(&(h, l))) {
                     w.viol("C01", "ep-delivered-unknown", format!("client {} ({}) was handed a {}-byte packet at t={} ms that the server never submitted for that address", i, addr, l, e.t_ns / MS));
+                } else if l == 0 {
+                    my_empties += 1;
                 } else if !mine.insert(h) {
                     w.viol("C01", "ep-delivered-twice", format!("client {} ({}) was handed the same {}-byte packet a second time at t={} ms", i, addr, l, e.t_ns / MS));
                 }
             }
+        }
+        let sent = w.server.events.iter().filter(|(a, e)| *a == addr && matches!(e.ev, Ev::AppSend(_, 0, _))).count();
+        if my_empties > sent {
+            w.viol("C01", "ep-delivered-twice", format!("client {} ({}) was handed {} zero-length packets but only {} were submitted for it", i, addr, my_empties, sent));
         }
     }
 }
@@ -222,12 +241,23 @@ fn check_disconnect(w: &mut World, ci: usize, t_end_ns: u64) -> bool {
         // obligations: Reliable packets E submitted before the call (server: after its Connect)
         let mut missing = Vec::new();
         let mut obligations = 0;
+        let mut empties_due = 0usize;
         for e in e_ev.iter() {
             if (e.t_ns, e.step_no) > (td.t_ns, td.step_no) {
                 break;
             }
             if let Ev::AppSend(h, l, 3) = e.ev {
                 obligations += 1;
+                if l == 0 {
+                    // zero-length packets look alike: the k-th one submitted needs k received
+                    empties_due += 1;
+                    let got = p_ev.iter().filter(|p| p.ev == Ev::Receive(h, 0) && p.t_ns <= p_disc.t_ns).count();
+                    w.c.inc("c09_zero_length_obligations");
+                    if got < empties_due {
+                        missing.push((e.uid, l, e.t_ns));
+                    }
+                    continue;
+                }
                 let got = p_ev.iter().any(|p| p.ev == Ev::Receive(h, l) && p.t_ns <= p_disc.t_ns);
                 if !got {
                     missing.push((e.uid, l, e.t_ns));
@@ -1152,6 +1182,15 @@ pub fn run_timers(seed: u64, params: &Params, out: &mut ScnOut) {
         }
     };
     let busy_until = rng.range(0, blackout_from / SEC) * SEC;
+    // disconnect attempt: one side calls disconnect some time after ITS Connect event (also within
+    // the 2 s in which a handshake resend timer may still be pending) and the first k of its
+    // Disconnect requests (or all of them) are lost
+    let disc_attempt = rng.chance(0.4);
+    let disc_by_client = rng.chance(0.5);
+    let disc_delay = *rng.pick(&[0u64, 50, 500, 1500, 1900, 3000, 10_000]) * MS;
+    let disc_lost = *rng.pick(&[0u32, 1, 3, 9, 10, 11, 1000, 1000]);
+    let disc_now = rng.chance(0.6);
+    let mut disc_called = false;
     let mut guard = 0;
     let mut probe_last = u64::MAX;
     let mut max_rto_client = 0u64;
@@ -1179,8 +1218,27 @@ pub fn run_timers(seed: u64, params: &Params, out: &mut ScnOut) {
                 eprintln!("PROBE t={} client rate {} rtt {:?} rto {:?} credit {} queues {:?} sbs {}", w.now_ns / MS, hc.verif_send_rate(), hc.rtt_s(), hc.verif_rto_ms(), hc.verif_flush_alloc(), hc.verif_queue_lens(), hc.send_buffer_size());
             }
         }
+        if disc_attempt && !disc_called {
+            let a = client_addr(0);
+            let conn_t = if disc_by_client { w.clients[ci].events.iter().find(|e| e.ev == Ev::Connect).map(|e| e.t_ns) } else { w.server.events.iter().find(|(x, e)| *x == a && e.ev == Ev::Connect).map(|(_, e)| e.t_ns) };
+            let my_turn = if disc_by_client { who == Some(ci) } else { who == None };
+            if let Some(t) = conn_t {
+                if my_turn && w.now_ns >= t + disc_delay {
+                    disc_called = true;
+                    if disc_lost > 0 {
+                        let (from, to) = if disc_by_client { (a, w.server.addr) } else { (w.server.addr, a) };
+                        w.net.drop_rules.push(DropRule { from: Some(from), to: Some(to), frame_type: "disconnect", remaining: disc_lost });
+                    }
+                    if disc_by_client {
+                        w.client_disconnect(ci, disc_now);
+                    } else {
+                        w.server_disconnect(a, disc_now);
+                    }
+                }
+            }
+        }
         // traffic while busy
-        if w.now_ns < busy_until {
+        if w.now_ns < busy_until && !disc_called {
             match who {
                 Some(i) if w.clients[i].state == 1 && rng.chance(0.3) => {
                     w.client_send(i, rng.range(12, 400) as usize, 0, rng.below(4) as u8);
@@ -1206,7 +1264,9 @@ pub fn run_timers(seed: u64, params: &Params, out: &mut ScnOut) {
         let reads = read_steps(&steps, &dl);
         let evs = w.clients[ci].events.clone();
         if let Some(c) = evs.iter().find(|e| e.ev == Ev::Connect) {
-            let end = evs.iter().find(|e| matches!(e.ev, Ev::Disconnect | Ev::Error(_))).map(|e| (e.t_ns, e.ev == Ev::Error("timeout")));
+            // the active timeout is judged up to the endpoint's own disconnect call (after it the
+            // disconnect retry budget below applies)
+            let end = evs.iter().find(|e| matches!(e.ev, Ev::Disconnect | Ev::Error(_) | Ev::AppDisconnect | Ev::AppDisconnectNow)).map(|e| (e.t_ns, e.ev == Ev::Error("timeout")));
             check_active_timeout(&mut w, "client", &steps, &reads, c.t_ns, end, t_end, ccfg.active_timeout_ms);
         }
     }
@@ -1216,7 +1276,7 @@ pub fn run_timers(seed: u64, params: &Params, out: &mut ScnOut) {
         let reads = read_steps(&steps, &dl);
         let evs: Vec<EvRec> = w.server.events.iter().filter(|(a, _)| *a == addr).map(|(_, e)| e.clone()).collect();
         if let Some(c) = evs.iter().find(|e| e.ev == Ev::Connect) {
-            let end = evs.iter().find(|e| e.t_ns >= c.t_ns && matches!(e.ev, Ev::Disconnect | Ev::Error(_))).map(|e| (e.t_ns, e.ev == Ev::Error("timeout")));
+            let end = evs.iter().find(|e| e.t_ns >= c.t_ns && matches!(e.ev, Ev::Disconnect | Ev::Error(_) | Ev::AppDisconnect | Ev::AppDisconnectNow)).map(|e| (e.t_ns, e.ev == Ev::Error("timeout")));
             check_active_timeout(&mut w, "server", &steps, &reads, c.t_ns, end, t_end, scfg_ep.active_timeout_ms);
         }
     }
@@ -1270,8 +1330,47 @@ pub fn run_timers(seed: u64, params: &Params, out: &mut ScnOut) {
             }
         }
     }
+    // ---- disconnect retry budget: the request is repeated every 2 s, 10 times, then Error(Timeout)
+    if disc_called {
+        let (from, to) = if disc_by_client { (addr, srv) } else { (srv, addr) };
+        let evs: Vec<EvRec> = if disc_by_client { w.clients[ci].events.clone() } else { w.server.events.iter().filter(|(a, _)| *a == addr).map(|(_, e)| e.clone()).collect() };
+        let gap = if disc_by_client { w.clients[ci].max_step_gap_ns } else { w.server.max_step_gap_ns };
+        let call = evs.iter().find(|e| matches!(e.ev, Ev::AppDisconnect | Ev::AppDisconnectNow)).cloned();
+        let reqs: Vec<u64> = w.wire.iter().filter(|r| !r.injected && r.src == from && r.dst == to && matches!(r.frame, Some(RFrame::Disconnect))).map(|r| r.t_ns).collect();
+        if let (Some(call), Some(&t0)) = (call, reqs.first()) {
+            w.c.inc("c10_disconnect_attempts_checked");
+            let who = if disc_by_client { "client" } else { "server" };
+            for p in reqs.windows(2) {
+                if p[1] - p[0] + MS < 2 * SEC {
+                    w.viol("C10", "disconnect-resend-too-fast", format!("{} repeated its Disconnect request after {} ms (< 2000): requests at {:?} ms", who, (p[1] - p[0]) / MS, reqs.iter().map(|t| t / MS).collect::<Vec<_>>()));
+                    break;
+                }
+            }
+            if reqs.len() > 11 {
+                w.viol("C10", "disconnect-resent-too-often", format!("{} sent {} Disconnect requests (the first plus at most 10 resends)", who, reqs.len()));
+            }
+            let end = evs.iter().find(|e| (e.t_ns, e.step_no) >= (call.t_ns, call.step_no) && matches!(e.ev, Ev::Disconnect | Ev::Error(_)));
+            match end {
+                Some(e) if e.ev == Ev::Error("timeout") => {
+                    w.c.inc("c10_disconnect_timeouts_checked");
+                    if reqs.len() != 11 || e.t_ns + MS < t0 + 22 * SEC {
+                        w.viol("C10", "disconnect-timeout-before-budget", format!("{} gave up its disconnect attempt with Error(Timeout) at t={} ms, {} ms after its first request, having sent {} requests (budget: the first plus 10 resends 2 s apart = not before 22000 ms); disconnect called {} ms after Connect, {} SYN-ACKs had been lost", who, e.t_ns / MS, (e.t_ns - t0) / MS, reqs.len(), disc_delay / MS, lose_synack));
+                    }
+                    if e.t_ns > t0 + 22 * SEC + 12 * gap + SEC {
+                        w.viol("C10", "disconnect-timeout-late", format!("{} gave up its disconnect attempt only {} ms after its first request (budget 22000 ms + 12 step intervals of at most {} ms)", who, (e.t_ns - t0) / MS, gap / MS));
+                    }
+                }
+                Some(_) => {}
+                None => {
+                    if t_end > t0 + 22 * SEC + 12 * gap + SEC {
+                        w.viol("C10", "disconnect-timeout-missing", format!("{} has no terminal event {} ms after its first Disconnect request", who, (t_end - t0) / MS));
+                    }
+                }
+            }
+        }
+    }
     // ---- keepalive: an idle connection on a loss-free network never times out
-    if !blackout {
+    if !blackout && !disc_called {
         let step_max = w.clients[ci].max_step_gap_ns.max(w.server.max_step_gap_ns) / MS;
         for (name, evs, my_to, peer_ka, peer_ka_int) in [
             ("client", w.clients[ci].events.clone(), ccfg.active_timeout_ms, scfg_ep.keepalive, scfg_ep.keepalive_interval_ms),
@@ -1299,7 +1398,7 @@ pub fn run_timers(seed: u64, params: &Params, out: &mut ScnOut) {
         }
     }
     let connected = w.c.get("cli_connect") > 0;
-    let timed_out = w.c.get("c10_timeouts_checked") + w.c.get("c10_handshake_timeouts_checked") > 0;
+    let timed_out = w.c.get("c10_timeouts_checked") + w.c.get("c10_handshake_timeouts_checked") + w.c.get("c10_disconnect_attempts_checked") > 0;
     let idle_long = connected && !blackout && t_end > 3 * ccfg.active_timeout_ms.max(scfg_ep.active_timeout_ms) * MS;
     let nontrivial = timed_out || idle_long;
     let sig = mix(seed, mix(lose_syn as u64 * 16 + lose_synack as u64, ccfg.active_timeout_ms ^ scfg_ep.active_timeout_ms << 20));
@@ -1507,6 +1606,7 @@ pub fn run_disconnect(seed: u64, params: &Params, out: &mut ScnOut) {
     let both_call = rng.chance(0.15);
     let n_queue = *rng.pick(&[0usize, 1, 5, 30, 150, 500]);
     let size_max = *rng.pick(&[40u64, 400, 3000, 20_000]);
+    let n_empty = if rng.chance(0.35) { rng.range(1, 3) as usize } else { 0 };
     let mut queued = false;
     let mut called = false;
     let horizon = call_at + 80 * SEC;
@@ -1538,9 +1638,10 @@ pub fn run_disconnect(seed: u64, params: &Params, out: &mut ScnOut) {
             if my_turn {
                 if !queued {
                     queued = true;
-                    for _ in 0..n_queue {
-                        let len = rng.log_range(12, size_max) as usize;
-                        let mode = *rng.pick(&[3u8, 3, 2, 1, 0]);
+                    for k in 0..n_queue + n_empty {
+                        // the last n_empty are zero-length Reliable packets (end-of-stream markers)
+                        let len = if k >= n_queue { 0 } else { rng.log_range(12, size_max) as usize };
+                        let mode = if k >= n_queue { 3 } else { *rng.pick(&[3u8, 3, 2, 1, 0]) };
                         if caller_is_client {
                             w.client_send(ci, len, rng.below(8) as usize, mode);
                         } else {
@@ -1585,6 +1686,87 @@ pub fn run_disconnect(seed: u64, params: &Params, out: &mut ScnOut) {
 
 // =============================================================================================
 // C17: connection limits
+
+/// Offline, from the wire and the server's event stream only: whenever the server admits a new
+/// handshake (a SYN-ACK with a nonce pair it has not sent to that address just before), the
+/// connections it certainly holds at that instant — established ones (between Connect and their
+/// terminal event) plus handshakes in progress (the same SYN-ACK is sent again later, or leads to
+/// Connect later) — must number fewer than max_total_connections.
+fn check_admissions(w: &mut World, max_total: usize) {
+    use std::collections::BTreeMap;
+    let srv = w.server.addr;
+    let mut synacks: BTreeMap<SocketAddr, Vec<(u64, u32, u32)>> = BTreeMap::new();
+    for r in w.wire.iter() {
+        if r.src == srv && !r.injected {
+            if let Some(RFrame::SynAck { nonce_ack, nonce, .. }) = r.frame {
+                synacks.entry(r.dst).or_default().push((r.t_ns, nonce, nonce_ack));
+            }
+        }
+    }
+    // established intervals
+    let mut intervals: Vec<(SocketAddr, u64, u64)> = Vec::new();
+    {
+        let mut open: BTreeMap<SocketAddr, u64> = BTreeMap::new();
+        for (a, e) in w.server.events.iter() {
+            match e.ev {
+                Ev::Connect => {
+                    open.insert(*a, e.t_ns);
+                }
+                Ev::Disconnect | Ev::Error(_) | Ev::AppDrop => {
+                    if let Some(t0) = open.remove(a) {
+                        intervals.push((*a, t0, e.t_ns));
+                    }
+                }
+                _ => {}
+            }
+        }
+        for (a, t0) in open {
+            intervals.push((a, t0, u64::MAX));
+        }
+    }
+    let mut worst: Option<String> = None;
+    for (x, list) in synacks.iter() {
+        for (k, &(t, n, na)) in list.iter().enumerate() {
+            if k > 0 && (list[k - 1].1, list[k - 1].2) == (n, na) {
+                continue; // a repetition, not an admission
+            }
+            w.c.inc("c17_admissions_checked");
+            let est: Vec<SocketAddr> = intervals.iter().filter(|(a, c, e)| a != x && *c < t && t < *e).map(|(a, _, _)| *a).collect();
+            let mut pend: Vec<SocketAddr> = Vec::new();
+            for (y, ly) in synacks.iter() {
+                if y == x || est.contains(y) {
+                    continue;
+                }
+                let before = ly.iter().filter(|s| s.0 < t).last();
+                let after = ly.iter().find(|s| s.0 > t);
+                let b = match before {
+                    Some(b) => b,
+                    None => continue,
+                };
+                // the same SYN-ACK again later: the entry lived through t
+                let mut pending = after.map_or(false, |a| (a.1, a.2) == (b.1, b.2));
+                // or it led to Connect later without another admission in between
+                if !pending && after.is_none() {
+                    pending = intervals.iter().any(|(a, c, _)| a == y && *c > t && *c < b.0 + 23 * SEC);
+                }
+                // an established connection that ended before t leaves the SYN-ACK of its own handshake behind
+                if pending && intervals.iter().any(|(a, c, _)| a == y && *c >= b.0 && *c <= t) {
+                    pending = false;
+                }
+                if pending {
+                    pend.push(*y);
+                }
+            }
+            w.c.max("max_c17_held_at_admission", (est.len() + pend.len()) as i128);
+            if est.len() + pend.len() >= max_total && worst.is_none() {
+                worst = Some(format!("at t={} ms the server admitted a handshake from {} (SYN-ACK sent) while it held {} established connections {:?} and {} handshakes in progress {:?}: max_total_connections = {}", t / MS, x, est.len(), est, pend.len(), pend, max_total));
+            }
+        }
+    }
+    if let Some(m) = worst {
+        w.viol("C17", "admitted-beyond-max-total", m);
+    }
+}
 
 pub fn run_limits(seed: u64, params: &Params, out: &mut ScnOut) {
     let mut rng = Rng::new(seed);
@@ -1631,7 +1813,18 @@ pub fn run_limits(seed: u64, params: &Params, out: &mut ScnOut) {
         .collect();
     let mut idx: Vec<Option<usize>> = vec![None; n_clients];
     let mut end_action_at: Vec<u64> = (0..n_clients).map(|_| rng.range(3, 25) * SEC).collect();
-    let phase1_end = 30 * SEC;
+    // a client that has disconnected may come back from the SAME address while the server still
+    // remembers the ended connection, and stays; later a wave of handshakes that are never
+    // completed (their ACKs are lost) arrives from fresh addresses, one more than would fit
+    let reconnects = rng.chance(0.5);
+    let mut reconnect_at: Vec<Option<u64>> = vec![None; n_clients];
+    let mut extra_objects: Vec<usize> = Vec::new();
+    let late_wave = rng.chance(0.6);
+    let late_at = rng.range(26, 48) * SEC;
+    let n_late = max_total + 2;
+    let late_gap = rng.range(60, 400) * MS;
+    let mut late_sent = 0usize;
+    let phase1_end = if late_wave { late_at + n_late as u64 * late_gap + 8 * SEC } else { 30 * SEC };
     let mut guard = 0;
     while w.now_ns <= phase1_end && !w.panicked {
         guard += 1;
@@ -1645,6 +1838,28 @@ pub fn run_limits(seed: u64, params: &Params, out: &mut ScnOut) {
                     idx[k] = Some(usize::MAX);
                 }
             }
+            if reconnect_at[k].map_or(false, |t| t <= w.now_ns) {
+                reconnect_at[k] = None;
+                if let Some(i) = idx[k] {
+                    if i != usize::MAX {
+                        w.drop_client(i);
+                    }
+                }
+                if let Some(ni) = w.connect_client(mk(&mut rng), client_addr(k), (10 * MS, 40 * MS), None) {
+                    extra_objects.push(ni);
+                    w.c.inc("c17_reconnects_from_same_address");
+                }
+            }
+        }
+        if late_wave && w.now_ns >= late_at + late_sent as u64 * late_gap && late_sent < n_late {
+            if late_sent == 0 {
+                w.net.drop_rules.push(DropRule { from: None, to: None, frame_type: "ack", remaining: 100_000 });
+            }
+            if let Some(ni) = w.connect_client(mk(&mut rng), client_addr(200 + late_sent), (10 * MS, 40 * MS), None) {
+                extra_objects.push(ni);
+            }
+            late_sent += 1;
+            w.c.inc("c17_late_wave_handshakes");
         }
         let who = match w.step_next() {
             Some(x) => x,
@@ -1655,10 +1870,23 @@ pub fn run_limits(seed: u64, params: &Params, out: &mut ScnOut) {
         };
         // connections end in between: disconnect from either side, drop, or silent death (timeout)
         if let Some(i) = who {
-            let k = (0..n_clients).find(|&k| idx[k] == Some(i)).unwrap();
+            let k = match (0..n_clients).find(|&k| idx[k] == Some(i)) {
+                Some(k) => k,
+                None => {
+                    // a reconnected or late-wave client object: it just stays
+                    if w.clients[i].state == 1 && rng.chance(0.05) {
+                        w.client_send(i, rng.range(12, 500) as usize, 0, 3);
+                    }
+                    continue;
+                }
+            };
             if w.now_ns >= end_action_at[k] && w.clients[i].client.is_some() {
                 end_action_at[k] = u64::MAX;
-                match rng.below(5) {
+                let action = rng.below(5);
+                if action <= 1 && reconnects && w.clients[i].state == 1 && rng.chance(0.7) {
+                    reconnect_at[k] = Some(w.now_ns + rng.range(100, 9000) * MS);
+                }
+                match action {
                     0 => w.client_disconnect(i, false),
                     1 => w.client_disconnect(i, true),
                     2 => w.drop_client(i),
@@ -1704,6 +1932,7 @@ pub fn run_limits(seed: u64, params: &Params, out: &mut ScnOut) {
             }
         }
     }
+    check_admissions(&mut w, max_total);
     // phase 2: everything ends; after the closed linger capacity must be available again
     for k in 0..n_clients {
         if let Some(i) = idx[k] {
@@ -1711,6 +1940,9 @@ pub fn run_limits(seed: u64, params: &Params, out: &mut ScnOut) {
                 w.drop_client(i);
             }
         }
+    }
+    for i in extra_objects {
+        w.drop_client(i);
     }
     w.net.drop_rules.clear();
     let quiet_until = w.now_ns + 50 * SEC;
@@ -1806,11 +2038,12 @@ pub fn run_amplify(seed: u64, params: &Params, out: &mut ScnOut) {
                 }
                 5 | 6 => {
                     // undersized SYN-typed datagram with a valid CRC: every length 5..1471
-                    let len = rng.range(5, 1471) as usize;
+                    let len = if rng.chance(0.3) { rng.range(5, 24) } else { rng.range(5, 1471) } as usize;
                     let mut body = vec![0u8; len - 4];
                     body[0] = 0;
                     if body.len() > 1 {
-                        body[1] = 3;
+                        // the protocol version byte: ours, or any other
+                        body[1] = *rng.pick(&[3u8, 3, 0, 1, 2, 4, 200, 255]);
                     }
                     for b in body.iter_mut().skip(2) {
                         *b = rng.u64() as u8;
